@@ -274,15 +274,20 @@ def stop_scripts(tier, seed):
             lines.append("pick %d" % rng.below(1 << 40))
         lines.append("obs")
         d = 2 + rng.below(3 if tier == "quick" else 4)
-        warm = rng.chance(1, 4)
+        warm = rng.chance(1, 3)
         if i % 5 == 0:
             picks = list(range(0, 40))            # every index of the first iterations
         else:
             picks = sorted(set(rng.choice(stops) for _ in range(10)))
+        if warm:
+            # the root is cached (exact, at depth d and shallower) before the stops: the first iteration then re-searches
+            lines += ["cleartable", "search %d -1 0" % d]
+            if rng.chance(1, 2):
+                lines.append("search %d -1 0" % max(1, d - 1))
         for N in picks:
             if not warm:
                 lines.append("cleartable")
-            lines.append("search %d %d 0" % (d, N))
+            lines.append("search %d %d 0" % (d + (1 if warm and rng.chance(1, 2) else 0), N))
         blocks.append(lines)
     return blocks
 
@@ -301,7 +306,7 @@ def check_C07(chk):
     for blk in blocks:
         gid = blk[0][2:]
         fen = None
-        stops = [int(l.split()[2]) for l in blk if l.startswith("search ")]
+        stops = [(int(l.split()[2]) if int(l.split()[2]) >= 0 else None) for l in blk if l.startswith("search ")]
         k = 0
         for ev in parse_search_blocks(impl.get(gid, [])):
             if ev["kind"] == "obs":
@@ -494,6 +499,82 @@ def ref_scripts(tier, seed):
     return blocks
 
 
+WINDOW_ROOTS = SMALL_ROOTS + [
+    "n1n5/PPPk4/8/8/8/8/4Kppp/5N1N b - - 0 1", "8/2p5/3p4/KP5r/1R3p1k/8/4P1P1/8 w - - 0 1",
+    "7n/pp3pkp/8/8/8/8/PP3PKP/7N w - - 0 1", "n6k/8/8/8/8/8/8/N6K w - - 0 1", "b6k/8/8/8/8/8/8/B6K b - - 0 1",
+    "r6k/8/8/8/8/8/8/R6K w - - 0 1", "q6k/8/8/8/8/8/8/Q6K b - - 0 1", "4k3/pppppppp/8/8/8/8/PPPPPPPP/4K3 w - - 0 1",
+    "1n2k1n1/8/8/8/8/8/8/1N2K1N1 w - - 0 1", "2b1kb2/8/8/8/8/8/8/2B1KB2 b - - 0 1",
+]
+DELTAS = [-120, -60, -56, -55, -51, -50, -46, -45, -30, -11, -10, -6, -5, -4, -1, 0, 1, 4, 5, 6, 10, 11, 30, 45, 46, 50, 51, 55, 56, 60, 120]
+
+
+def window_run(chk, status):
+    """C09 at the level of the three search functions: each is called directly (hook entry points) with windows
+    placed around the node's exhaustive value, in the real code and in the extracted model; the result must be
+    identical and must be bound-consistent with the reference value (SpecR of Proofs/AlphaBeta.v)."""
+    rng = Rng(chk.seed * 47 + 37)
+    n = 36 if chk.tier == "quick" else 400
+    key = "win-%s-%d" % (chk.tier, chk.seed)
+    pre = []
+    for i in range(n):
+        root = WINDOW_ROOTS[i % len(WINDOW_ROOTS)]
+        lines = ["# w%d" % i, "new " + root]
+        for _ in range(rng.below(8) if i >= len(WINDOW_ROOTS) else 0):
+            lines.append("pick %d" % rng.below(1 << 40))
+        pre.append(lines)
+    kinds = [("q", 0), ("d", 1), ("n", 2)] + ([("n", 3)] if chk.tier == "thorough" else [])
+    ph1 = [b + ["obs"] + ["refn %d" % r for (_, r) in kinds] for b in pre]
+    refs = cached_run("win-ref", DRIVER, ph1, key, timeout=1800)
+    blocks = []
+    info = {}
+    for b in pre:
+        gid = b[0][2:]
+        out = refs.get(gid, [])
+        vals = [parse_kv(l)[1] for l in out if l.startswith("refn ")]
+        fen = next((fen_of_obs(parse_kv(l)[1]) for l in out if l.startswith("obs ")), None)
+        if len(vals) != len(kinds) or fen is None:
+            continue
+        lines = list(b)
+        wins = []
+        for (kind, rem), kv in zip(kinds, vals):
+            v = int(kv["v"])
+            if kv.get("blocked") == "1" or abs(v) > MATE_BAND:
+                continue
+            cand = [(-32767, 32767)]
+            for da in DELTAS:
+                a = v + da
+                cand += [(a, a + 1), (a, 32767), (-32767, a), (a, a + 10), (a - 50, a)]
+            for (a, bb) in cand:
+                if -32767 <= a < bb <= 32767:
+                    lines.append("win %s %d %d %d" % (kind, rem, a, bb))
+                    wins.append((kind, rem, a, bb, v))
+        info[gid] = (fen, wins)
+        blocks.append(lines)
+    impl = cached_run("win-impl", HARNESS, blocks, key)
+    model = cached_run("win-model", DRIVER, blocks, key, timeout=2400) if status.get("driver") else {}
+    dis = diff_runs(blocks, impl, model) if status.get("driver") else []
+    fails = []
+    count = 0
+    boundary = 0
+    for blk in blocks:
+        gid = blk[0][2:]
+        fen, wins = info[gid]
+        res = [l for l in impl.get(gid, []) if l.startswith("win ")]
+        for (kind, rem, a, bb, v), ln in zip(wins, res):
+            count += 1
+            if not ln.startswith("win r="):
+                fails.append(("the %s search with window (%d, %d) did not return a value in %s: %s" % (kind, a, bb, fen, ln), {"fen": fen, "window": [a, bb], "function": kind, "remaining": rem}))
+                continue
+            r = int(ln[6:])
+            if a <= v <= bb:
+                boundary += 1
+            if not (min(bb, v) <= r <= max(a, v)):
+                fails.append(("%s (remaining depth %d) called with window (%d, %d) in %s returned %d, which is not consistent with the exhaustive value %d of that node (expected between %d and %d)" % (
+                    {"q": "the quiescence search", "d": "the depth-1 search", "n": "the search node"}[kind], rem, a, bb, fen, r, v, min(bb, v), max(a, v)),
+                    {"fen": fen, "window": [a, bb], "function": kind, "remaining": rem, "returned": r, "exhaustive_value": v}))
+    return blocks, impl, dis, fails, {"window_calls": count, "value_inside_window": boundary, "positions": len(blocks)}
+
+
 MATE_BAND = 9000   # scores beyond this are king-capture / mate scores: compared after clamping
 
 
@@ -548,12 +629,22 @@ def check_C09(chk):
                                    "kind": "spec-oracle failure on the implementation"})
                 if d >= 2 and int(r["kv"].get("moves", "0")) >= 4:
                     nontrivial.add((fen, d, which))
-    chk.cov["evaluations"] = stats["trees"]
-    chk.cov["distinct_nontrivial"] = len(nontrivial)
-    chk.cov["rule"] = ("positions of 2-7 men (random legal prefixes from %d small roots); for depth 1..%d the real code's root search runs with the table emptied at every node "
+    wblocks, wimpl, wdis, wfails, wstats = window_run(chk, status)
+    for what, replay in wfails[:5]:
+        if nfail < 5:
+            nfail += 1
+            chk.violation(what, dict(replay, kind="spec-oracle failure on the implementation"))
+    dis = dis + wdis
+    stats["windows"] = wstats
+    chk.cov["evaluations"] = stats["trees"] + wstats["window_calls"]
+    chk.cov["distinct_nontrivial"] = len(nontrivial) + wstats["value_inside_window"]
+    chk.cov["rule"] = ("(a) positions of 2-7 men (random legal prefixes from %d small roots); for depth 1..%d the real code's root search runs with the table emptied at every node "
                        "(hook), once with fresh history and once with the history left by the previous call, and is compared with Spec/Negamax.v (exhaustive, unordered, "
                        "no windows) evaluated over the model's game functions. Trees in which the reference meets a blocked node (king present, no move generated at quiescence level) "
-                       "are skipped as the property allows; scores beyond +-%d (mate / king capture) are compared after clamping. Non-trivial: depth >= 2 with at least four root moves.") % (
+                       "are skipped as the property allows; scores beyond +-%d (mate / king capture) are compared after clamping. Non-trivial: depth >= 2 with at least four root moves. "
+                       "(b) the quiescence search, the depth-1 search and the interior node (remaining depth 2) are called DIRECTLY through hook entry points with some 150 windows per position placed "
+                       "around the node's exhaustive value v (null windows (a, a+1), half-open and narrow windows for a - v in {0, +-1, +-4..6, +-10, +-45..60, +-120}); the real code and the extracted model must "
+                       "return the same number and it must lie between min(beta, v) and max(alpha, v) (the bound-consistency relation proved for the model). Non-trivial there: calls whose window contains v.") % (
                            len(SMALL_ROOTS), 3 if chk.tier == "quick" else 4, MATE_BAND)
     chk.cov["input_distribution"] = stats
     chk.cov["samples"] = [{"script": blocks[0][:12], "implementation": impl.get(blocks[0][0][2:], [])[:8], "reference": [l for l in model.get(blocks[0][0][2:], []) if l.startswith("ref ")][:4]}]
@@ -736,6 +827,9 @@ def check_C19(chk):
             b.kill()
         burners.clear()
 
+    # a timed go whose search ended long before its timer: the sleeping timer must not touch later searches
+    stale = ["position startpos", "go depth 1 movetime 700", "wait", "ucinewgame"]
+    slow_case = ("r3k2r/p1ppqpb1/bn2pnp1/3PN3/1p2P3/2N2Q1p/PPPBBPPP/R3K2R w KQkq - 0 1", 7 if chk.tier == "quick" else 8)
     nfail = 0
     stats = {"positions": npos, "runs": 0, "with_load": 0, "with_prefix": 0, "env_sizes": []}
     model_blocks = []
@@ -776,6 +870,24 @@ def check_C19(chk):
                         d, fen, r, bool(prefix), load, k, tail[k] if k < len(tail) else "<end>", ref[k] if k < len(ref) else "<end>"),
                         {"fen": fen, "depth": d, "run": r, "prefix": prefix, "first": ref, "this": tail, "kind": "spec-oracle failure on the implementation"})
             model_blocks.append(["# c%d" % ci, "cleartable", "new " + fen, "search %d -1 0" % d])
+    finally:
+        stop_load()
+    try:
+        fen, d = slow_case
+        t0 = time.time()
+        ref_lines, ok1, _ = uci.go_transcript("position fen " + fen, "go depth %d" % d, timeout=300)
+        dur = time.time() - t0
+        got_lines, ok2, _ = uci.go_transcript("position fen " + fen, "go depth %d" % d, prefix=stale, timeout=300)
+        stats["stale_timer_case"] = {"depth": d, "search_s": round(dur, 2)}
+        stats["runs"] += 2
+        a = [l for l in ref_lines if not l.startswith("info time") and l != "readyok"]
+        b = [l for l in got_lines if not l.startswith("info time") and l != "readyok"]
+        if (a != b or not ok1 or not ok2) and nfail < 5:
+            nfail += 1
+            k = next((j for j in range(min(len(a), len(b))) if a[j] != b[j]), min(len(a), len(b)))
+            chk.violation("go depth %d on %s gives different output after the prefix %s (a timed search that ended before its timer) than on a fresh engine: line %d '%s' vs '%s'" % (
+                d, fen, stale, k, b[k] if k < len(b) else "<end>", a[k] if k < len(a) else "<end>"),
+                {"fen": fen, "depth": d, "prefix": stale, "fresh": a[-6:], "after_prefix": b[-6:], "kind": "spec-oracle failure on the implementation"})
     finally:
         stop_load()
     # the model's transcript for the same (position, depth)
